@@ -38,9 +38,10 @@ TRIAGE = [
     (r"^vm::builtin::procedure::(eval|apply|call_cc)$", r"Overflow\(Sub\)", INV_IP + " (a builtin runs after the CALL opcode was read)"),
     (r"^vm::builtin::string::char_substring_offset$", r"Overflow\(Sub\)", "end is given only together with start; equal indices return early and end < start is rejected, so end >= 1 here"),
     (r"^vm::builtin::string::(string_list|string_copy|string_vector)$", r"index", OFFS),
+    (r"^vm::builtin::vector::vector_to_list$", r"unwrap", "the index ranges over start..end and vector_range returned end <= vector.len(), so Vector::get is Some"),
     (r"^vm::builtin::string::vector_string$", r"unwrap", "the index ranges over start..end and end <= v.len() was checked just above (end defaults to v.len()), so Vector::get is Some"),
     (r"^vm::builtin::string::(string_fill|string_set)$", r"string-edit", OFFS),
-    (r"^vm::builtin::vector::vector_mut_copy$", r".", "start < from.len() and end <= from.len() and start <= end were checked just above (end defaults to from.len()), at < to.len(); i ranges over start..end, so i - start does not underflow and at + (i - start) < at + (end - start) <= to.len(); sums of lengths cannot overflow"),
+    (r"^vm::builtin::vector::vector_mut_copy$", r".", "start <= from.len(), end <= from.len() and start <= end were checked just above (end defaults to from.len()), at <= to.len() and at + (end - start) <= to.len(); i ranges over start..end, so Vector::get(i) is Some, i - start does not underflow and at + (i - start) < at + (end - start) <= to.len(); sums of lengths cannot overflow"),
     (r"^vm::compare::<Vm>::compare_vector$", r"unwrap", "idx < left.len() and left.len() == right.len() was tested just above"),
     (r"^vm::compile::<Vm>::compile_(symbol_expression|define|set)$", r"Overflow\(Add\)", "n is the index of an argument of this lambda (n < argc), both far below 2^63"),
     (r"^vm::compile::<Vm>::compile_if$", r"unwrap", "the index is bc.len() taken immediately before an emit, so it is in range afterwards"),
